@@ -80,7 +80,7 @@ theorem basic_writeInsert {σ σ' : State} {es : List Entry} (hb : Basic σ)
   · exact hb.floorPub
   · exact hb.compLe
   · exact hb.flushedFrozen
-  · exact hb.frozenNe
+  · exact hb.frozenLt
 
 
 
@@ -91,10 +91,12 @@ theorem basic_rotate {σ σ' : State} (hb : Basic σ) (h : doRotate σ = some σ
     memLt := Nat.lt_succ_self _
     trExcl := fun t ht => absurd ht (by show σ.tr ≠ some t; rw [g1]; simp)
     flushedFrozen := fun h => by cases h
-    frozenNe := by
+    frozenLt := fun f hf => by
       have := hb.memLt
-      show some σ.mem ≠ some σ.nextId
-      intro h; have := Option.some.inj h; omega }
+      have hf' : some σ.mem = some f := hf
+      cases hf'
+      show σ.mem < σ.nextId
+      exact this }
 
 
 theorem mem_of_lookup {α β : Type} [BEq α] [LawfulBEq α] (a : α) (b : β) :
@@ -156,7 +158,7 @@ theorem basic_flushDrop {σ σ' : State} (hb : Basic σ) (h : doFlushDrop Cfg.re
       obtain ⟨a, b, _, d⟩ := hb.trExcl t ht
       exact ⟨a, b, rfl, d⟩
     flushedFrozen := fun h => by cases h
-    frozenNe := fun h => by cases h }
+    frozenLt := fun f h => by cases h }
 
 theorem basic_compStart {σ σ' : State} (hb : Basic σ) (h : doCompStart σ = some σ') : Basic σ' := by
   obtain ⟨g1, rfl⟩ := doCompStart_some h
